@@ -89,7 +89,8 @@ end
 
 def encBucket (b : HS.Bucket) : Sexp := .list (b.map ofNat)
 
-def handleDet (gr kind rej script fuel : Sexp) : Option Sexp := do
+def handleDet (gr kind rej script fuel drop : Sexp) : Option Sexp := do
+  let drop ← drop.bool?
   let (G, W) ← decGrammar gr
   let rejected ← allSome decProg (← rej.list?)
   let acts ← allSome decAct (← script.list?)
@@ -97,12 +98,12 @@ def handleDet (gr kind rej script fuel : Sexp) : Option Sexp := do
   let filt : Prog → Bool := fun p => !rejected.contains p
   match kind with
   | .list [.atom "heap", thr] =>
-      let E : HS.Env Nat Nat Rat := { G := G, W := W, ops := HS.probOps (← decRat thr), filter := filt }
+      let E : HS.Env Nat Nat Rat := { G := G, W := W, ops := HS.probOps (← decRat thr), filter := filt, dropDeleted := drop }
       match runScript E fuel acts (HS.Gen.new G) [] with
       | none => pure (.list [.atom "undef"])
       | some (g, out) => pure (report E encRat g out)
   | .list [.atom "bucket", sz] =>
-      let E : HS.Env Nat Nat HS.Bucket := { G := G, W := W, ops := HS.bucketOps (← sz.nat?), filter := filt }
+      let E : HS.Env Nat Nat HS.Bucket := { G := G, W := W, ops := HS.bucketOps (← sz.nat?), filter := filt, dropDeleted := drop }
       match runScript E fuel acts (HS.Gen.new G) [] with
       | none => pure (.list [.atom "undef"])
       | some (g, out) => pure (report E encBucket g out)
@@ -175,7 +176,7 @@ def handleU (gr kind rej script fuel kway : Sexp) : Option Sexp := do
   | _ => none
 
 def handle : Sexp → Option Sexp
-  | .list [.atom "hs.det", gr, kind, rej, script, fuel] => handleDet gr kind rej script fuel
+  | .list [.atom "hs.det", gr, kind, rej, script, fuel, drop] => handleDet gr kind rej script fuel drop
   | .list [.atom "hs.u", gr, kind, rej, script, fuel, kway] => handleU gr kind rej script fuel kway
   | _ => none
 
